@@ -81,6 +81,26 @@ class Layout:
         p = f["fn"].get("rpath", f["fn"]["path"])
         a = [self.operand(x, depth + 1) for x in t["a"]]
         a0 = a[0] if a else "?"
+        # calling a closure that was created here (`f(key)` with `f = |k| k.private().to_bytes()`): the closure's result, with its
+        # captures and parameters replaced by what they stand for at the call
+        if re.search(r"(FnOnce|FnMut|Fn)(<.*>>)?::(call_once|call_mut|call)$", p) and len(t["a"]) == 2 and depth < 20:
+            cl = self._closure_of(t["a"][0])
+            if cl is not None:
+                cb, caps = cl
+                ret = Layout(self.fb, cb).place({"l": 0})
+                tup = t["a"][1]
+                targs = []
+                if tup.get("k") in ("copy", "move") and not tup["pl"].get("p"):
+                    dt = self.single(tup["pl"]["l"])
+                    if dt and dt[0] == "assign" and dt[1].get("k") == "agg":
+                        targs = [self.operand(o, depth + 1) for o in dt[1].get("ops") or []]
+                def sub_(m_):
+                    if m_.group(1) == "1":
+                        n_ = m_.group(2)
+                        return self.operand(caps[int(n_[1:])], depth + 1) if n_ and n_[1:].isdigit() and int(n_[1:]) < len(caps) else m_.group(0)
+                    i_ = int(m_.group(1)) - 2
+                    return (targs[i_] if i_ < len(targs) else m_.group(0)) + (m_.group(2) or "")
+                return re.sub(r"\barg(\d+)(\.\d+)?", sub_, ret)
         if re.search(r"(<impl \[T\]>::to_vec|ToOwned>::to_owned|Clone>::clone|Option::<T>::as_ref|Deref>::deref|AsRef<.*>>::as_ref|Vec::<T, A>::as_slice|Borrow<.*>>::borrow|::into_iter|::iter|Into<.*>>::into|From<.*>>::from)$", p):
             return a0
         if p.endswith("crypto::Signature::to_bytes"):
@@ -93,6 +113,22 @@ class Layout:
         if m:
             return f"{m.group(3)}{m.group(2)}({a0})"
         return "call:" + p.split("::")[-1] + "(" + ", ".join(a) + ")"
+
+    def _closure_of(self, op, depth=0):
+        """(closure body, captured operands) when the operand is a closure created in this body (through moves / refs)"""
+        if op.get("k") not in ("copy", "move") or depth > 6:
+            return None
+        d = self.single(op["pl"]["l"])
+        if not d or d[0] != "assign":
+            return None
+        r = d[1]
+        if r.get("k") == "agg" and r.get("ak") == "closure" and r.get("closure") in self.fb.bodies:
+            return self.fb.bodies[r["closure"]], r.get("ops") or []
+        if r.get("k") == "use":
+            return self._closure_of(r["op"], depth + 1)
+        if r.get("k") == "ref":
+            return self._closure_of({"k": "copy", "pl": {"l": r["pl"]["l"]}}, depth + 1)
+        return None
 
     def sequence(self):
         b = self.b
